@@ -11,8 +11,9 @@ Model of the resonating-bond (RVB) update, src/sse/qmc_traits/rvb.rs. Core Lean 
   does; `acceptProb` is the product the code returns (`rvbAcceptProb` = both composed);
 * the move as a checkable relation: `isRvbMove` (decider).
 
-The region-growing procedure (`build_cluster`, `WeightedBoundaryManager`) is *not* modelled: the
-region is an input here (taken from the trace hook in the correspondence run).
+The region is an input here (taken from the trace hook in the correspondence run). The
+region-growing procedure itself (`find_constants`, `build_cluster`, `WeightedBoundaryManager`) is
+modelled exactly in QmcModel/RvbRegion.lean (`proposeRegion`).
 -/
 import QmcModel.Basic
 import QmcModel.Rand
